@@ -67,7 +67,7 @@ theorem lineEntryStep_sat {f : Func} (hf : f.WF) (cnt : Nat → Nat) (bs : List 
   simp only
   apply Sat.bind
   have h1 : Sat OvOnly False
-      (if b = 0 then sumCounters f.arcs cnt f.blocks[b].destination acc.2
+      (if f.blocks[b].no = 0 then sumCounters f.arcs cnt f.blocks[b].destination acc.2
        else sumEntering f.arcs cnt bs f.blocks[b].source acc.2) fun _ => True := by
     split
     · exact sumCounters_sat _ _ _ _ hblk.2
@@ -111,20 +111,22 @@ theorem linesToBlockLines_lt (n N : Nat) (hn : n < N) : ∀ (ls : List Nat) (m :
       · simp only [List.mem_singleton] at hb; omega
       · exact h p hp b hb
 
-theorem linesToBlockGo_lt (N : Nat) : ∀ (bl : List Block) (n : Nat) (m : List (Nat × List Nat)),
-    n + bl.length ≤ N → (∀ p ∈ m, ∀ b ∈ p.2, b < N) →
-    ∀ p ∈ linesToBlockGo bl n m, ∀ b ∈ p.2, b < N := by
+theorem linesToBlockGo_lt (N : Nat) : ∀ (bl : List Block) (m : List (Nat × List Nat)),
+    (∀ b ∈ bl, b.no < N) → (∀ p ∈ m, ∀ b ∈ p.2, b < N) →
+    ∀ p ∈ linesToBlockGo bl m, ∀ b ∈ p.2, b < N := by
   intro bl
   induction bl with
-  | nil => intro n m _ h; exact h
+  | nil => intro m _ h; exact h
   | cons blk bl ih =>
-    intro n m hn h
+    intro m hn h
     simp only [linesToBlockGo]
-    simp only [List.length_cons] at hn
-    exact ih (n + 1) _ (by omega) (linesToBlockLines_lt n N (by omega) _ _ h)
+    exact ih _ (fun b hb => hn b (List.mem_cons_of_mem _ hb))
+      (linesToBlockLines_lt blk.no N (hn blk (by simp)) _ _ h)
 
-theorem linesToBlock_lt (f : Func) : ∀ p ∈ linesToBlock f, ∀ b ∈ p.2, b < f.blocks.length :=
-  linesToBlockGo_lt _ _ 0 [] (by omega) (fun p hp => by simp at hp)
+/-- the numbers `lines_to_block` collects (`block.no`) are indices into the block table -/
+theorem linesToBlock_lt {f : Func} (hf : f.WF) :
+    ∀ p ∈ linesToBlock f, ∀ b ∈ p.2, b < f.blocks.length :=
+  linesToBlockGo_lt _ _ [] hf.nos (fun p hp => by simp at hp)
 
 /-! ## pieces of `finalize` -/
 
